@@ -1,11 +1,12 @@
 """Driver for the statement fold (C03 and friends): render abstract statements, analyse them with the real analyzer,
 fold them with the real SQLLineageHolder.of / LineageRunner, project the public summary.  No oracle logic."""
+from harness import REPO as _REPO
 import json
 import sys
 import warnings
 
-if "/repo" not in sys.path:
-    sys.path.insert(0, "/repo")
+if _REPO not in sys.path:
+    sys.path.insert(0, _REPO)
 warnings.simplefilter("ignore")
 
 
